@@ -31,7 +31,7 @@ def mentions(expr):
     return out
 
 
-def copy_env(func_node):
+def copy_env(func_node, graph=None):
     """Local names assigned exactly once in the function (plain
     ``name = expr``, not a loop / with / except target, not a parameter,
     not augmented) -> their defining expression.  Used for copy
@@ -119,12 +119,55 @@ def copy_env(func_node):
                 continue
             # a snapshot of a field that the function also assigns
             # (x = o.f ... o.f = v) is not the field any more
-            if stored_paths and any(
-                    isinstance(sub, (ast.Subscript, ast.Attribute)) and
-                    txt(sub) in stored_paths for sub in ast.walk(val)):
+            hit = set(txt(sub) for sub in ast.walk(val)
+                      if isinstance(sub, (ast.Subscript, ast.Attribute))
+                      and txt(sub) in stored_paths) if stored_paths else ()
+            if hit and not _stores_after_uses(graph, name, hit):
                 continue
             out[name] = val
     return out
+
+
+def _stores_after_uses(graph, name, paths):
+    """Every store to one of ``paths`` happens where no use of the local
+    ``name`` can follow: the snapshot x = o.f is then still o.f wherever x
+    is read.  Decided on the CFG; without one the answer is no."""
+    if graph is None:
+        return False
+    from . import cfg as C
+    stores, uses = [], []
+    for node in graph.nodes:
+        if node.ast is None:
+            continue
+        roots = C.node_exprs(node) if node.kind != 'stmt' else [node.ast]
+        for root in roots:
+            if root is None:
+                continue
+            for sub in ast.walk(root):
+                if isinstance(sub, (ast.Subscript, ast.Attribute)) and \
+                        isinstance(sub.ctx, (ast.Store, ast.Del)) and \
+                        txt(sub) in paths:
+                    stores.append(node)
+                if isinstance(sub, ast.Name) and sub.id == name and \
+                        isinstance(sub.ctx, ast.Load):
+                    uses.append(node)
+                # a call on the object may change the field as well
+    if not stores:
+        return True
+    uses = set(uses)
+    defs = [node for node in graph.nodes if node.kind == 'stmt' and
+            isinstance(node.ast, ast.Assign) and any(
+                isinstance(t, ast.Name) and t.id == name
+                for t in node.ast.targets)]
+    for store in stores:
+        # a store matters when it can run after the binding and before a
+        # use, without the binding being executed again in between
+        if defs and not any(store in C.reach_after(d) for d in defs):
+            continue
+        after = C.reach_after(store, blocked=defs)
+        if uses & after:
+            return False
+    return True
 
 
 class _Subst(ast.NodeTransformer):
@@ -448,7 +491,7 @@ class Normaliser(object):
         if graph is None or graph.func is None:
             return {}
         if graph._copy_env is None:
-            graph._copy_env = copy_env(graph.func.node)
+            graph._copy_env = copy_env(graph.func.node, graph)
         return graph._copy_env
 
     def atom_at(self, node, expr=None):
